@@ -7,14 +7,13 @@ use std::collections::BTreeMap;
 use std::sync::Mutex;
 
 use kvh::caobs::*;
+use kvh::caops::*;
 use kvh::sys::*;
 use kvh::util::{coq_list, write_json, Args, CaseWriter, Rng};
 use krill::commons::storage::Ident;
 use krill::constants::{CASERVER_NS, CA_OBJECTS_NS};
 use serde_json::{json, Value};
 
-const CAS: [&str; 4] = ["a", "b", "c", "d"];
-fn parent_of(ca: &str) -> &'static str { match ca { "a" => "ta", "b" => "a", "c" => "b", "d" => "a", _ => "ta" } }
 
 fn ca_json(sys: &Sys, h: &str) -> Option<Value> { sys.ca(h).ok().map(|c| serde_json::to_value(&*c).unwrap()) }
 
@@ -118,7 +117,6 @@ fn check_signed_sets(objs: &Value, now: i64) -> Vec<String> {
 struct Out { w: CaseWriter, jsonl: std::fs::File, op_hist: BTreeMap<String, u64>, cmd_hist: BTreeMap<String, u64>, err_hist: BTreeMap<String, u64>,
              keystate_hist: BTreeMap<String, u64>, distinct: std::collections::BTreeSet<String>, samples: Vec<Value>, impl_failures: Vec<Value> }
 
-fn keystate_tag(rc: &Value) -> String { rc["key_state"].as_object().and_then(|o| o.keys().next().cloned()).unwrap_or("?".into()) }
 
 #[allow(clippy::too_many_arguments)]
 fn emit_cases(sys: &Sys, it: &mut Interner, before: &Snapshot, after: &Snapshot, op_desc: &Value, republish: Option<bool>, hist: u64, out: &Mutex<Out>) {
@@ -195,98 +193,18 @@ fn run_history(args: &Args, hist: u64, seed: u64, n_ops: u64, out: &Mutex<Out>) 
     let mut it = Interner::default();
     sys.bootstrap().expect("bootstrap");
     // hierarchy; every step is observed like any other operation
-    let setup: Vec<Box<dyn Fn(&Sys) -> Result<(), String>>> = vec![
-        Box::new(|s| s.add_ca("a").map_err(|e| e.to_string())),
-        Box::new(|s| s.add_parent("a", "ta", atoms_to_resources(0xff)).map_err(|e| e.to_string())),
-        Box::new(|s| s.sync_rounds("a", "ta", 3).map_err(|e| e.to_string())),
-        Box::new(|s| s.add_ca("b").map_err(|e| e.to_string())),
-        Box::new(|s| s.add_parent("b", "a", atoms_to_resources(0x0f)).map_err(|e| e.to_string())),
-        Box::new(|s| s.sync_rounds("b", "a", 2).map_err(|e| e.to_string())),
-        Box::new(|s| s.add_ca("c").map_err(|e| e.to_string())),
-        Box::new(|s| s.add_parent("c", "b", atoms_to_resources(0x03)).map_err(|e| e.to_string())),
-        Box::new(|s| s.sync_rounds("c", "b", 2).map_err(|e| e.to_string())),
-        Box::new(|s| s.add_ca("d").map_err(|e| e.to_string())),
-        Box::new(|s| s.add_parent("d", "a", atoms_to_resources(0x30)).map_err(|e| e.to_string())),
-        Box::new(|s| s.sync_rounds("d", "a", 2).map_err(|e| e.to_string())),
-    ];
+    let setup = setup_steps();
     for (i, step) in setup.iter().enumerate() {
         let before = snapshot(&sys);
         if let Err(e) = step(&sys) { eprintln!("history {hist}: setup step {i} failed: {e}"); }
         let after = snapshot(&sys);
         emit_cases(&sys, &mut it, &before, &after, &json!({"op": "setup", "step": i}), None, hist, out);
     }
-    // entitlement masks per child (to grow / shrink them)
-    let mut ent: BTreeMap<&str, u32> = BTreeMap::from([("a", 0xff), ("b", 0x0f), ("c", 0x03), ("d", 0x30)]);
-    let mut roas: BTreeMap<&str, Vec<String>> = BTreeMap::new();
+    let mut st = OpState::new();
     for _ in 0..n_ops {
-        let ca = *rng.pick(&CAS);
         let before = snapshot(&sys);
-        let kind = rng.weighted(&[14, 7, 10, 12, 4, 3, 5, 5, 4, 6, 4, 3, 18, 2, 2]);
-        let mut republish = None;
-        let (desc, res): (Value, Result<(), String>) = match kind {
-            0 => { // add a ROA, mostly inside the CA's atoms
-                let atom = if rng.chance(85) { let m = ent[ca]; let bits: Vec<u32> = (0..N_ATOMS).filter(|i| m & (1 << i) != 0).collect(); if bits.is_empty() { 0 } else { *rng.pick(&bits) } } else { rng.below(N_ATOMS as u64) as u32 };
-                let len = rng.range(16, 24);
-                let roa = format!("10.{}.{}.0/{} => {}", atom, if len > 16 { rng.below(4) * 64 } else { 0 }, if len < 18 { 16 } else { len }, 64512 + rng.below(3));
-                let r = sys.routes_update(ca, &[&roa], &[]).map_err(|e| e.to_string());
-                if r.is_ok() { roas.entry(ca).or_default().push(roa.clone()); }
-                (json!({"op": "roa_add", "ca": ca, "roa": roa}), r)
-            }
-            1 => { // remove a ROA
-                let list = roas.entry(ca).or_default();
-                if list.is_empty() { (json!({"op": "roa_remove", "ca": ca, "roa": null}), Ok(())) } else {
-                    let i = rng.below(list.len() as u64) as usize; let roa = list.remove(i);
-                    (json!({"op": "roa_remove", "ca": ca, "roa": roa}), sys.routes_update(ca, &[], &[&roa]).map_err(|e| e.to_string()))
-                }
-            }
-            2 => { // change the entitlement of ca at its parent: grow, shrink, partial overlap, nothing, regain
-                let ca = if ca == "a" { "b" } else { ca }; // children of the TA are managed through the TA proxy
-                let universe: u32 = match ca { "a" => 0xfff, "b" => 0xff, "c" => 0x0f, _ => 0xff };
-                let m = match rng.below(5) { 0 => ent[ca] | (1 << rng.below(8)), 1 => ent[ca] & !(1 << rng.below(8)), 2 => (rng.next() as u32) & universe, 3 => 1 << rng.below(8), _ => ent[ca] };
-                let m = if m & universe == 0 { 1 << rng.below(4) } else { m & universe };
-                let r = sys.update_child_resources(parent_of(ca), ca, atoms_to_resources(m)).map_err(|e| e.to_string());
-                if r.is_ok() { ent.insert(ca, m); }
-                (json!({"op": "entitlement", "child": ca, "mask": m}), r)
-            }
-            3 => { let p = parent_of(ca); let r = sys.sync_parent(ca, p).map(|_| ()).map_err(|e| e.to_string());
-                   if p == "ta" { let _ = sys.sync_ta(); }
-                   (json!({"op": "sync_parent", "ca": ca}), r) }
-            4 => (json!({"op": "keyroll_init", "ca": ca}), sys.keyroll_init(ca).map_err(|e| e.to_string())),
-            5 => (json!({"op": "keyroll_activate", "ca": ca}), sys.keyroll_activate(ca).map_err(|e| e.to_string())),
-            6 => { let child = match ca { "a" => "b", "b" => "c", _ => "d" }; let p = parent_of(child);
-                   (json!({"op": "suspend", "parent": p, "child": child}), sys.child_suspend(p, child, true).map_err(|e| e.to_string())) }
-            7 => { let child = match ca { "a" => "b", "b" => "c", _ => "d" }; let p = parent_of(child);
-                   (json!({"op": "unsuspend", "parent": p, "child": child}), sys.child_suspend(p, child, false).map_err(|e| e.to_string())) }
-            8 => { let cust = 64512 + rng.below(4); let prov = 64600 + rng.below(3);
-                   if rng.chance(70) { let d = format!("AS{cust} => AS{prov}, AS{}", prov + 10);
-                       (json!({"op": "aspa_add", "ca": ca, "def": d}), sys.aspas_update(ca, &[&d], &[]).map_err(|e| e.to_string())) }
-                   else { (json!({"op": "aspa_remove", "ca": ca, "customer": cust}), sys.aspas_update(ca, &[], &[cust as u32]).map_err(|e| e.to_string())) } }
-            9 => { let force = rng.chance(50); republish = Some(force);
-                   (json!({"op": "republish", "force": force}), sys.republish(force).map(|_| ()).map_err(|e| e.to_string())) }
-            10 => (json!({"op": "renew"}), sys.renew().map_err(|e| e.to_string())),
-            12 => { // advance the key roll of this CA by whatever step is next
-                let tags: Vec<String> = before.ca[ca].as_ref().and_then(|c| c["resources"].as_object().map(|m| m.values().map(keystate_tag).collect())).unwrap_or_default();
-                let p = parent_of(ca);
-                let step = if tags.iter().any(|t| t == "roll_new") { "activate" } else if tags.iter().any(|t| t == "roll_pending" || t == "roll_old" || t == "pending") { "sync" } else { "init" };
-                let r = match step {
-                    "activate" => sys.keyroll_activate(ca).or_else(|_| sys.sync_parent(ca, p).map(|_| ())),
-                    "sync" => { let r = sys.sync_parent(ca, p).map(|_| ()); if p == "ta" { let _ = sys.sync_ta(); let _ = sys.sync_parent(ca, p); } r }
-                    _ => sys.keyroll_init(ca),
-                }.map_err(|e| e.to_string());
-                (json!({"op": "roll_step", "ca": ca, "step": step}), r)
-            }
-            13 => { // remove a leaf child at its parent, the child keeps calling in (and is refused)
-                let child = if rng.chance(50) { "c" } else { "d" }; let p = parent_of(child);
-                (json!({"op": "child_remove", "parent": p, "child": child}), sys.child_remove(p, child).map_err(|e| e.to_string())) }
-            14 => { // a leaf drops its parent and is added again under it (new resource class)
-                let child = if rng.chance(50) { "c" } else { "d" }; let p = parent_of(child);
-                let r1 = sys.parent_remove(child, p);
-                let _ = sys.child_remove(p, child);
-                let m = ent[child];
-                let r2 = sys.add_parent(child, p, atoms_to_resources(m));
-                (json!({"op": "parent_remove_readd", "child": child, "parent": p}), r1.and(r2).map_err(|e| e.to_string())) }
-            _ => (json!({"op": "sync_repo", "ca": ca}), sys.sync_repo(ca).map(|_| ()).map_err(|e| e.to_string())),
-        };
+        let tags = |ca: &str| -> Vec<String> { before.ca[ca].as_ref().and_then(|c| c["resources"].as_object().map(|m| m.values().map(keystate_tag).collect())).unwrap_or_default() };
+        let (desc, res, republish) = random_op(&sys, &mut rng, &mut st, &tags);
         let after = snapshot(&sys);
         {
             let mut o = out.lock().unwrap();
